@@ -28,6 +28,10 @@ from harness import core
 from harness.core import Prop, outcome, InternalError
 
 KINDS = ["laser", "srr", "laser_npz", "srr_npz"]
+# element names of the random histories: plain letters; isotopes; names that contain other names of the pool (ratio images,
+# 'P31 -> 47', 'Fe' / 'Fe56'), with '/', blanks and '>'; one-letter / case / blank / non-ASCII variants
+NAME_POOLS = [["A", "B", "C", "D", "E", "F"], ["Mg24", "P31", "Fe56", "Fe57", "Zn66", "Gd157"],
+              ["Ca44", "P31", "Ca44/P31", "P31 -> 47", "Fe", "Fe56"], ["b", "a", "ab", "B", "a b", "é"]]
 DTYPES = ["<f8", "<f4"]
 # the byte-swapped twins: generated for arrays handed to add() and for the start arrays of every kind but srr_npz
 SWAPPED = [">f8", ">f4"]
@@ -564,6 +568,8 @@ def do_reads(world, plan):
         args = {"calibrate": kw["cal"]}
         if srr:
             args["layer"] = kw["layer"]
+        elif kw["ext"] and not kw["cal"]:
+            args["calibrate"] = None   # `Laser.get(calibrate: bool | None = False)`: None is "off"
         if kw["ext"]:
             sh = layer_shape(start, kw["layer"])
             if srr and kw["layer"] % 2 == 1:
@@ -954,6 +960,8 @@ def obj_do_reads(world, plan):
         args = {"calibrate": kw["cal"]}
         if srr:
             args["layer"] = kw["layer"]
+        elif kw["ext"] and not kw["cal"]:
+            args["calibrate"] = None   # `Laser.get(calibrate: bool | None = False)`: None is "off"
         if kw["ext"]:
             sh = layer_shape(start, kw["layer"])
             if srr and kw["layer"] % 2 == 1:
@@ -1110,6 +1118,12 @@ class MultiAbs:
             las = self.idx(self.lasers, step["laser"], "laser")
             if not las["names"]:
                 raise OutOfScope("npz of a laser without elements")
+            if step.get("reuse_file"):
+                # the file written by the last save of this laser is loaded once more: it holds what the laser
+                # holds now only if the laser was not edited since
+                if las.get("saved") != las.get("version", 0):
+                    raise OutOfScope("the file does not hold what the laser holds now")
+            las["saved"] = las.get("version", 0)
             if las["srr"]:
                 # a file holds ONE stacked native-order array per SRR laser
                 if any(sh != las["shapes"][0] for sh in las["shapes"]):
@@ -1142,6 +1156,7 @@ class MultiAbs:
                     self.cal_pool.append(c["new"])
                 las["names"] = las["names"] + [op["name"]]
                 las["dts"][op["name"]] = dts
+                las["version"] = las.get("version", 0) + 1
             elif op["op"] in ("remove", "rename", "get"):
                 if op["op"] == "get" and not (0 <= op["layer"] < nl):
                     raise OutOfScope("read of an absent layer")
@@ -1154,6 +1169,8 @@ class MultiAbs:
                 elif op["op"] == "remove":
                     las["dts"] = {n: v for n, v in las["dts"].items() if n in nxt}
                 las["names"] = nxt
+                if op["op"] != "get":
+                    las["version"] = las.get("version", 0) + 1
             else:
                 raise InternalError(f"bad call {op}")
         elif k == "edit_cal":
@@ -1253,7 +1270,7 @@ class MultiWorld:
         for c in case["cfgs"]:
             self.cfgs.append(make_config(c["srr"], c["scal"]))
         self.lasers, self.srr = [], []
-        self.nsaved = 0
+        self.nsaved, self.files = 0, {}
 
     def apply(self, st):
         """-> name of the exception class the step raised, or None"""
@@ -1273,9 +1290,13 @@ class MultiWorld:
                 self.lasers.append(las)
                 self.srr.append(bool(st["srr"]))
             elif k == "load":
-                path = self.tmp / f"laser{self.nsaved}.npz"
-                self.nsaved += 1
-                npz.save(path, self.lasers[st["laser"]])
+                if st.get("reuse_file"):
+                    path = self.files[st["laser"]]
+                else:
+                    path = self.tmp / f"laser{self.nsaved}.npz"
+                    self.nsaved += 1
+                    npz.save(path, self.lasers[st["laser"]])
+                    self.files[st["laser"]] = path
                 self.lasers.append(npz.load(path))
                 self.srr.append(self.srr[st["laser"]])
             elif k == "call":
@@ -1409,8 +1430,10 @@ class C07(Prop):
     id = "C07"
     anchored = ["src/pewlib/laser.py", "src/pewlib/srr/srr.py", "src/pewlib/io/npz.py"]
     cases = {"quick": 120, "thorough": 2400}
-    rule = ("targeted: every successful add/remove/rename sequence up to length 3 over {A,B,C,D} from Laser, SRRLaser and both "
-            "after npz save/load (16368 sequences each; thorough: over 5 names, 76695 each, plus all 578786 length-4 sequences "
+    rule = ("targeted: every successful add/remove/rename sequence up to length 3 over {A,B,C,D} from Laser and SRRLaser "
+            "(16368 sequences each) and, after npz save/load, every sequence up to length 2 plus the one-op extensions of "
+            "every second length-2 sequence (the half chosen by the seed; thorough: all of them, over 5 names, 76695 each from all "
+            "four starts, plus all 578786 length-4 sequences "
             "over 4 names from Laser and SRRLaser and a quarter of them, by prefix, after npz save/load), grouped into trees "
             "by prefix; all get() variants are read at every node, a reduced set at the deepest leaves; the arrays of the "
             "enumerated adds cycle through all-float64, all-float32, float32 first / float64 later, float64 first / float32 "
@@ -1419,8 +1442,15 @@ class C07(Prop):
             "loaded, with and without reconstruction reads) whose layers differ in precision, in byte order or both, at "
             "construction and in add(), followed by swap / chain renames, removes and further adds; object-level probes on "
             "every kind of laser (constructor copies, add by reference, views and copies, write-through, shared offsets array, "
-            "one Calibration under two keys, stray calibration keys, every failing call); generated: random histories up to "
-            "length 25 - 40 % successful sequences against the content-level model, 60 % object-level histories (adds with "
+            "one Calibration under two keys, stray calibration keys, every failing call); multi-laser probes on SRRLaser (2 and 3 "
+            "layers) and Laser: two and three lasers built from the SAME list object / array / calibration dict / config "
+            "object, every state-changing call on each in turn, caller edits between and after the constructions (its list of "
+            "layers too), save/load mid-history with the saved laser living on, one file loaded twice; generated: random "
+            "histories up to length 25 - 28 % successful sequences against the content-level model, 42 % object-level "
+            "histories on one laser, 30 % histories over up to four lasers in one memory (constructions from arguments other "
+            "lasers were built from, loads, calls on any laser, caller edits of calibrations / dicts / configs / lists; after "
+            "every step EVERY laser is compared with its own dictionary, the caller's lists with what the caller put there, "
+            "identities between lasers and with the caller's objects one-sidedly); object-level histories: (adds with "
             "no / a new / an already known Calibration object, removes, renames incl. swaps, cycles, chains, reads, edits of the "
             "caller's Calibration / dict / config objects, in-place writes into the caller's arrays and through returned arrays, "
             "rebinding and in-place writes of the offsets array, failing calls of every kind, constructor dicts with a stray "
@@ -1451,7 +1481,13 @@ class C07(Prop):
                    "followed (the outcome depends on how the dict is rebuilt, the property starts from well-formed lasers)",
                    "order of the element tuple and of the calibration dict is not compared (the property speaks of sets)",
                    "SRR reads with layer=None (reconstruction) are compared as the set of non-fill values per element; "
-                   "sizes of extent-trimmed reads are C10's subject and are not compared",
+                   "sizes of extent-trimmed reads are C10's subject and are not compared; of the flattened reconstruction "
+                   "(flat=True, layer=None) only that it returns a 2-d array and changes nothing stored (values: C09)",
+                   "histories over several lasers: successful calls and edits of construction-time objects only; a case in which "
+                   "a step fails in the model, a construction-time Calibration is handed to add(), a calibration key names no "
+                   "element, an SRR laser whose layers differ in shape / dtype or are byte-swapped is saved, a laser without "
+                   "elements is saved, a reused file no longer holds what its laser holds, or layers cannot be crossed is not "
+                   "judged (undetermined); the generator builds none of them",
                    "the reconstruction read stacks the layers into one array of layer 0's dtype: where an element's layer 0 is "
                    "32-bit, its later layers are not given values beyond float32 precision when that read is made (cfg = 1); "
                    "a case that does so, an npz start whose layers differ in dtype (a file holds one stacked array) or whose SRR "
@@ -1459,9 +1495,13 @@ class C07(Prop):
                    "dtype are not judged (counted as undetermined); the generator builds none of them"]
 
     # ---- enumeration
-    def trees(self, alphabet, length, kinds=KINDS):
+    def trees(self, alphabet, length, kinds=KINDS, halve_npz=False):
         """all successful sequences of length <= `length`: one tree for the short ones, then one tree per
-        sequence of length `length - 1` (itself and its one-op extensions)"""
+        sequence of length `length - 1` (itself and its one-op extensions).
+        `halve_npz` (quick tier): after an npz round trip - where every sequence costs a file load - the one-op
+        extensions of every second sequence of length `length - 1` only, the half chosen by the seed (seeds 0 and 1
+        together, and the thorough tier alone, run all of them); everything shorter stays exhaustive."""
+        phase = int(os.environ.get("VERIF_SEED", "0")) % 2
         for kind in kinds:
             start = default_start(kind, deco=TREE_DECO)
             nl = len(start["ids"])
@@ -1471,8 +1511,13 @@ class C07(Prop):
                 continue
             yield {**base, "prefix": [], "depth": length - 2, "light_leaves": False}
             present, did, cid = start_state(start)
+            j = 0
             for seq in walk([], present, did, cid, length - 1, alphabet, nl, TREE_DECO):
                 if len(seq) == length - 1:
+                    j += 1
+                    if halve_npz and kind.endswith("_npz") and j % 2 != phase:
+                        yield {**base, "prefix": seq, "depth": 0}   # the sequence itself, without its extensions
+                        continue
                     yield {**base, "prefix": seq, "depth": 1}
 
     def targeted(self, tier):
@@ -1498,7 +1543,7 @@ class C07(Prop):
         yield from self.targeted_multi()
         yield from self.targeted_dtypes()
         if tier == "quick":
-            yield from self.trees(a4, 3)
+            yield from self.trees(a4, 3, halve_npz=True)
         else:
             yield from self.trees(a5, 3)
             yield from self.sampled_len4(a4)
@@ -1661,8 +1706,7 @@ class C07(Prop):
     def gen_seq(self, rng, tier):
         kind = rng.choice(KINDS)
         srr = kind.startswith("srr")
-        pool = rng.choice([["A", "B", "C", "D", "E", "F"], ["Mg24", "P31", "Fe56", "Fe57", "Zn66", "Gd157"],
-                           ["b", "a", "ab", "B", "a b", "é"]])
+        pool = rng.choice(NAME_POOLS)
         n0 = rng.choice([1, 2, 2, 3, 3, 4])
         names = rng.sample(pool, n0)
         nl = rng.choice([2, 2, 3]) if srr else 1
@@ -2188,6 +2232,8 @@ class C07(Prop):
             elif k == "load":
                 f.add("multi:load-mid-history" if any(s["op"] == "call" and s["call"]["op"] != "get" for s in steps[:i])
                       else "multi:load-of-a-fresh-laser")
+                if st.get("reuse_file"):
+                    f.add("multi:one-file-loaded-twice")
                 built.append((("load", st["laser"]), None, None))
             elif k == "call":
                 op = st["call"]
@@ -2213,11 +2259,10 @@ class C07(Prop):
 
     def gen_multi(self, rng, tier):
         srr = rng.random() < 0.65
-        pool = rng.choice([["A", "B", "C", "D", "E", "F"], ["Ca44", "P31", "Ca44/P31", "P31 -> 47", "Fe", "Fe56"],
-                           ["b", "a", "ab", "B", "a b", "é"]])
+        pool = rng.choice(NAME_POOLS)
         n0 = rng.choice([1, 2, 2, 3, 3])
         names = rng.sample(pool, n0)
-        nl = rng.choice([2, 2, 3]) if srr else 1
+        nl = rng.choice([2, 2, 3, 4]) if srr else 1
         # a case that saves an SRR laser keeps to what one stacked array in a file can hold
         plain = srr and rng.random() < 0.5
         if srr:
@@ -2277,6 +2322,9 @@ class C07(Prop):
             if k == "construct":
                 return construct(rng.randrange(nlas))
             if k == "load":
+                again = [j for j, l in enumerate(ab.lasers) if "saved" in l and l["saved"] == l.get("version", 0)]
+                if again and rng.random() < 0.4:   # the same file once more
+                    return {"op": "load", "laser": rng.choice(again), "reuse_file": True}
                 return {"op": "load", "laser": rng.randrange(nlas)}
             if k == "edit_cal":
                 nonlocal_cid[0] += 2
@@ -2407,6 +2455,10 @@ class C07(Prop):
                                              call(0, swap), con(0, 0, 0), {"op": "set_list", "list": 0, "entries": [0]},
                                              add(0, "D", 0, None), call(1, chain), {"op": "set_list", "list": 0, "entries": []},
                                              call(1, {"op": "remove", "names": ["Q"]})]}
+                # one file loaded twice, the first of the loaded lasers edited in between
+                yield {**base, "steps": [con(0, 0, 0), call(0, swap), {"op": "load", "laser": 0}, call(1, chain),
+                                         add(1, "D", 0, {"new": 5}), {"op": "load", "laser": 0, "reuse_file": True},
+                                         call(2, {"op": "remove", "names": ["A"]}), call(1, {"op": "remove", "names": ["D"]})]}
                 # saved and loaded mid-history; the saved laser, the loaded one and a twin are edited in turn; loaded again
                 yield {**base, "steps": [con(0, 0, 0), con(0, 0, 0), call(0, swap), {"op": "load", "laser": 0}, call(2, chain),
                                          add(0, "D", 0, {"new": 5}), call(1, {"op": "remove", "names": ["C"]}),
@@ -2435,8 +2487,7 @@ class C07(Prop):
     def gen_obj(self, rng, tier):
         kind = rng.choice(KINDS)
         srr = kind.startswith("srr")
-        pool = rng.choice([["A", "B", "C", "D", "E", "F"], ["Mg24", "P31", "Fe56", "Fe57", "Zn66", "Gd157"],
-                           ["b", "a", "ab", "B", "a b", "é"]])
+        pool = rng.choice(NAME_POOLS)
         n0 = rng.choice([1, 2, 2, 3, 3, 4])
         names = rng.sample(pool, n0)
         nl = rng.choice([2, 2, 3]) if srr else 1
